@@ -16,6 +16,7 @@ RULE = ('forward: all candidates of all lines of the C02 generator (Intel syntax
         'b must be among asm(str(dis(b))). A case = (direction, line/bytes, candidate); non-trivial = the round trip was evaluated (candidate decoded / '
         'string canonical and decoded).')
 RULE += ' Round 8: one candidate in four is also decoded from a stream positioned on it inside a larger buffer with nothing after it.'
+RULE += ' Round 9: SIB bytes without a base register for every scale x three index registers x displacements that would also fit a byte.'
 ASSUMPTIONS = ['GNU as/objdump 2.40 only *select* the canonical byte strings of the backward direction; the comparison itself is miasmX against miasmX']
 
 
